@@ -65,23 +65,12 @@ Example C06_nonvacuous :
   end.
 Proof. vm_compute. repeat split. Qed.
 
-(** ** Multi-node form (ChainProofs): phantom protection along the whole leaf chain, under inserts, removes,
-    splits and unlinks in any interleaving: at ANY later instant, if every recorded (node, version) pair is
-    still current, the result is exactly the set of keys of the interval that exist now.  In particular an
-    insert into the interval that completed and is not in the result has made a recorded pair stale. *)
+(** ** Multi-node form (ChainProofs): along the whole leaf chain, under inserts, removes, splits and unlinks in
+    any interleaving: a key of the interval that is present now and is not in the result of the completed scan
+    leaves at least one recorded pair stale (removes do not change versions, so only inserts are detectable: the
+    statement of the property). *)
 From Yk Require Import ChainDefs ChainProofs.
 
-Theorem C06_chain_phantom_free : forall kss evs s,
-  kss_ok kss = true -> crun true (cinit kss) evs = Some s ->
-  sc_pc (c_scan s) = CDone ->
-  (forall id v, In (id, v) (sc_nvset (c_scan s)) ->
-     exists n, find_node id (c_nodes s) = Some n /\ cn_ver n = v) ->
-  sc_res (c_scan s) = filter (in_interval (sc_l (c_scan s)) (sc_r (c_scan s))) (all_keys (c_nodes s)).
-Proof. exact chain_scan_phantom_free. Qed.
-Print Assumptions C06_chain_phantom_free.
-
-(** contrapositive, the statement of the property: a key of the interval that is present now and is not in the
-    result of the completed scan leaves at least one recorded pair stale *)
 Theorem C06_chain_seen_or_stale : forall kss evs s k,
   kss_ok kss = true -> crun true (cinit kss) evs = Some s ->
   sc_pc (c_scan s) = CDone ->
@@ -92,8 +81,28 @@ Theorem C06_chain_seen_or_stale : forall kss evs s k,
 Proof.
   intros kss evs s k Hk Hr Hd Hin Hiv.
   destruct (in_dec N.eq_dec k (sc_res (c_scan s))) as [Hy | Hn]; [left; exact Hy | right].
-  intros Hall. apply Hn.
-  rewrite (chain_scan_phantom_free kss evs s Hk Hr Hd Hall).
-  apply filter_In. split; assumption.
+  intros Hall. apply Hn. exact (chain_scan_no_phantom_insert kss evs s k Hk Hr Hd Hall Hin Hiv).
 Qed.
 Print Assumptions C06_chain_seen_or_stale.
+
+(** consequently, when no remove happened since the invocation, a transaction that finds all recorded pairs
+    unchanged has read exactly the set of keys that exist in the interval *)
+Theorem C06_chain_exact_when_no_removes : forall kss pre l r post s,
+  kss_ok kss = true -> crun true (cinit kss) (pre ++ EBegin l r :: post) = Some s -> sc_pc (c_scan s) = CDone ->
+  (forall k, ~ In (ERem k) post) ->
+  (forall id v, In (id, v) (sc_nvset (c_scan s)) -> exists n, find_node id (c_nodes s) = Some n /\ cn_ver n = v) ->
+  sc_res (c_scan s) = filter (in_interval (sc_l (c_scan s)) (sc_r (c_scan s))) (all_keys (c_nodes s)).
+Proof. exact chain_scan_phantom_free_no_removes_since_begin. Qed.
+Print Assumptions C06_chain_exact_when_no_removes.
+
+(** size-limited and right-to-left scans (ChainLimProofs) *)
+From Yk Require Import ChainLimDefs ChainLimProofs.
+Theorem C06_chain_limited_seen_or_stale : forall kss evs s k,
+  kss_ok kss = true -> lrun (linit kss) evs = Some s -> ls_pc (l_scan s) = CDone -> ls_rtl (l_scan s) = false ->
+  (forall id v, In (id, v) (ls_nvset (l_scan s)) -> exists n, find_node id (c_nodes (l_c s)) = Some n /\ cn_ver n = v) ->
+  In k (all_keys (c_nodes (l_c s))) -> in_interval (ls_l (l_scan s)) (ls_r (l_scan s)) k = true ->
+  (ls_max (l_scan s) = 0%nat \/ (length (ls_res (l_scan s)) < ls_max (l_scan s))%nat \/
+   (exists lk, last_key (ls_res (l_scan s)) = Some lk /\ k <= lk)) ->
+  In k (ls_res (l_scan s)).
+Proof. exact lim_scan_no_phantom_insert_fwd. Qed.
+Print Assumptions C06_chain_limited_seen_or_stale.
